@@ -22,7 +22,7 @@ ASSUMPTIONS = [
 ]
 PI = math.pi
 RADII = [0.0, 1e-3, 0.5, 1.0, 2.5, 1e3]
-WIDTHS = [None, 0.3, 1.2]
+WIDTHS = [None, 0.0, 0.3, 1.2]
 POS1 = [-2.0, 0.0, 0.7, 3.5]
 
 
